@@ -39,6 +39,26 @@ def estep(ctx):
     return out
 
 
+def initialize(ctx):
+    """KMeansMachine.initialize with explicit starting centroids: the machine starts from exactly those centroids (k_init by its
+    trusted contract hands an array back as given), whatever the dtype of the training data; data and init array unchanged"""
+    out = []
+    for label, mk in (("float", lambda: KM.mk_data()), ("int64data", lambda: input_arr("x", (KM.Nn, KM.Dd), dtype="int")),
+                      ("dask", lambda: KM.mk_data(kind="dask"))):
+        I = new_interp()
+
+        def build(mk=mk):
+            c0 = input_arr("c0", (KM.Kk, KM.Dd))
+            return [KM.mk_kmeans(I, centroids=False, init_method=c0), mk()], {}
+
+        def spec(ctx_, m, data):
+            m.fields["centroids_"] = m.fields["init_method"]
+            return None
+        cl = K.check_function(I, "kmeans.KMeansMachine.initialize", build, spec, KM.facts(), "C06.initialize." + label, structural=False)
+        out += cl
+    return collapse(out, "C06.initialize", "explicit starting centroids are taken over exactly (float, integer-typed and Dask training data)")
+
+
 def mstep(ctx):
     out = []
     for label in ("one", "blocks"):
@@ -107,9 +127,9 @@ def loop_cfg(has_thr, has_max):
     return run
 
 
-GROUPS = [guard(estep), guard(mstep), guard(lemmas), guard(loop_cfg(True, True)), guard(loop_cfg(True, False)), guard(loop_cfg(False, True))]
+GROUPS = [guard(initialize), guard(estep), guard(mstep), guard(lemmas), guard(loop_cfg(True, True)), guard(loop_cfg(True, False)), guard(loop_cfg(False, True))]
 SHARED = [("C20", "dist", ["C20.dist.ndarray", "C20.dist.dask"]), ("C20", "predict", ["C20.predict"])]   # leaf contracts used at e_step's call sites
-REPLAY = [("C06.loop", "kmeans_repro.py", "fit_loop", {}), ("C06", "kmeans_repro.py", "criterion", {}), ("C20", "kmeans_repro.py", "dist", {})]
+REPLAY = [("C06.loop.body", "kmeans_repro.py", "criterion", {}), ("C06.initialize", "kmeans_repro.py", "criterion", {}), ("C06.loop", "kmeans_repro.py", "fit_loop", {}), ("C06", "kmeans_repro.py", "criterion", {}), ("C20", "kmeans_repro.py", "dist", {})]
 TRUSTED = ["np.argmin / np.min contracts; np.bincount contract; scipy cdist contract", "dask_ml k_init returns the initial centroids (opaque)",
            "Dask contract (DESIGN §3)"]
 ASSUMPTIONS = ["every cluster keeps at least one sample (as in the property statement)", "previous criterion non-zero in the convergence test"]
